@@ -16,14 +16,14 @@ K = 1000
 def plan(tier, seed):
     if tier == "quick":
         return [
-            dict(space="k3", lexmaps=("M0", "M3"), wss=("", " "), alpha="ab",
-                 nmax=4, lexdis=(False, True)),
+            dict(space="k3", lexmaps=("M0", "M3", "M0p"), wss=("", " "),
+                 alpha="ab", nmax=4, lexdis=(False, True)),
             dict(space="k4only", win=(seed, 40), lexmaps=("M0",), wss=("",),
                  alpha="ab", nmax=4, lexdis=(False, True)),
         ]
     return [
-        dict(space="k3", lexmaps=("M0", "M3"), wss=("", " "), alpha="ab",
-             nmax=5, lexdis=(False, True)),
+        dict(space="k3", lexmaps=("M0", "M3", "M0p"), wss=("", " "),
+             alpha="ab", nmax=5, lexdis=(False, True)),
         dict(space="k3", lexmaps=("M0",), wss=(" ",), alpha="ab ",
              nmax=4, lexdis=(False, True)),
         dict(space="k4only", lexmaps=("M0",), wss=("",), alpha="ab", nmax=5,
@@ -37,7 +37,7 @@ def units(tier, seed):
     out = []
     for u in glrsweep.make_units(plan(tier, seed)):
         for ld in u.pop("lexdis"):
-            if ld and u["lexmap"] != "M0":
+            if ld and u["lexmap"] not in ("M0", "M0p"):
                 # with overlapping terminals lexical disambiguation itself
                 # decides which tokenisations exist; "sentence prefix" is then
                 # not defined by the grammar alone - outside the oracle
